@@ -1151,3 +1151,120 @@ func c13Rules4b(c *core.Ctx) {
 	}
 	c.Check(direct == 0 && viaHelper >= 2 && comparesPrec && readsParens, "C13.prec", "BinaryNode.Format#operands", fn.Decl.Pos(), "BinaryNode.Format writes an operand without deciding whether it needs parentheses (direct Format calls on Left/Right: %d, operands through a helper: %d, operator precedences compared: %v, helper reads the Parens flag: %v): it relies on the flag the parser sets, and a tree that was not parsed — the condition two where properties are combined into, (a OR b) AND (c OR d) — is written as a OR b AND c OR d, which reads back as another condition", direct, viaHelper, comparesPrec, readsParens)
 }
+
+// c15TxHandle (seed C15-10-r4): the transaction handle works inside its own transaction. Every data method of boltTx reaches the
+// store through a Bolt helper that is given the handle's own tx; a call of one of Bolt's exported data methods opens another
+// transaction, which sees the last committed state instead of the transaction's own writes.
+func c15TxHandle(c *core.Ctx) {
+	c.Rule("C15.txhandle", "A6 (sibling agreement): every data method of boltTx passes the handle's own transaction to the Bolt helper it delegates to, and calls none of Bolt's methods that open a transaction of their own (db.View/db.Update inside): a List that reads outside the transaction does not see its writes, and a delete followed by a rebuild in one Update re-creates the index entries of the deleted object")
+	sp := c.P.Pkg("services/storage")
+	if sp == nil {
+		return
+	}
+	info := sp.TypesInfo
+	// Bolt methods that open their own transaction
+	opens := map[*types.Func]bool{}
+	for _, f := range core.AllFuncs(sp) {
+		if core.RecvName(f.Decl) != "Bolt" {
+			continue
+		}
+		fo, _ := info.Defs[f.Decl.Name].(*types.Func)
+		ast.Inspect(f.Decl.Body, func(n ast.Node) bool {
+			if call, ok := n.(*ast.CallExpr); ok {
+				if sel, ok := call.Fun.(*ast.SelectorExpr); ok && (sel.Sel.Name == "View" || sel.Sel.Name == "Update" || sel.Sel.Name == "Begin") && an.FieldSel(info, sel.X, "Bolt", "db") {
+					opens[fo] = true
+				}
+			}
+			return true
+		})
+	}
+	n := 0
+	for _, f := range core.AllFuncs(sp) {
+		if core.RecvName(f.Decl) != "boltTx" {
+			continue
+		}
+		var bad *types.Func
+		delegates, passesTx := false, true
+		ast.Inspect(f.Decl.Body, func(nd ast.Node) bool {
+			call, ok := nd.(*ast.CallExpr)
+			if !ok {
+				return true
+			}
+			sel, ok := call.Fun.(*ast.SelectorExpr)
+			if !ok || !an.FieldSel(info, sel.X, "boltTx", "b") {
+				return true
+			}
+			cal := core.Callee(info, call)
+			if cal == nil {
+				return true
+			}
+			delegates = true
+			if opens[cal] {
+				bad = cal
+			}
+			// helpers that take a *bolt.Tx first must get t.tx
+			if sig, ok := cal.Type().(*types.Signature); ok && sig.Params().Len() > 0 {
+				if pt, ok := sig.Params().At(0).Type().(*types.Pointer); ok {
+					if nt := core.NamedOf(pt.Elem()); nt != nil && nt.Obj().Name() == "Tx" {
+						if len(call.Args) == 0 || !an.FieldSel(info, call.Args[0], "boltTx", "tx") {
+							passesTx = false
+						}
+					}
+				}
+			}
+			return true
+		})
+		if !delegates {
+			continue
+		}
+		n++
+		c.Analysed(f)
+		name := "boltTx." + f.Decl.Name.Name
+		why := ""
+		if bad != nil {
+			why = "it calls Bolt." + bad.Name() + ", which opens a transaction of its own"
+		} else if !passesTx {
+			why = "it does not pass its own tx to the helper"
+		}
+		c.Check(why == "", "C15.txhandle", name, f.Decl.Pos(), "%s does not work inside the handle's own transaction (%s): it reads the last committed state — a CreateTx followed by a ListTx in one transaction does not list the new object, and DeleteTx followed by RebuildTx in one Update rebuilds index entries for the deleted object, after which every List fails with 'no key exists', also after a reopen", name, why)
+	}
+	c.Floor("C15.txhandle", "data methods of boltTx", n, 6)
+}
+
+// c17NoForward (seed C17-12-r4): normalising the time a task was last scheduled at never moves it forward. Next() is strictly
+// after its argument: a last-scheduled time rounded up onto an occurrence (10:00:59.7 → 10:01:00) skips that occurrence.
+// NewSchedule derives what it returns from its parameter through UTC, Truncate, Unix/time.Unix only — Round and Add do not occur.
+func c17NoForward(c *core.Ctx) {
+	c.Rule("C17.noforward", "A4: NewSchedule never moves the last-scheduled time forward: every time.Time it derives from its parameter is made with UTC, Truncate, Unix and time.Unix (all of which keep or lower the time); Round and Add do not occur — Next() is strictly after its argument, so a time rounded up onto an occurrence skips it")
+	sp := c.P.Pkg("task/backend/scheduler")
+	if sp == nil {
+		return
+	}
+	info := sp.TypesInfo
+	fn := c.Need("C17.noforward", "task/backend/scheduler", "", "NewSchedule")
+	if fn == nil {
+		return
+	}
+	c.Analysed(fn)
+	bad := ""
+	pos := token.NoPos
+	n := 0
+	ast.Inspect(fn.Decl.Body, func(nd ast.Node) bool {
+		call, ok := nd.(*ast.CallExpr)
+		if !ok {
+			return true
+		}
+		sel, ok := call.Fun.(*ast.SelectorExpr)
+		if !ok || !core.TypeIs(info.TypeOf(sel.X), "time", "Time") {
+			return true
+		}
+		n++
+		switch sel.Sel.Name {
+		case "Round", "Add", "AddDate":
+			bad, pos = sel.Sel.Name, call.Pos()
+		}
+		return true
+	})
+	c.Check(bad == "", "C17.noforward", "NewSchedule#normalise", pos, "NewSchedule applies %s to the last-scheduled time: a time in the last half second before an occurrence (a restart stamps active tasks with time.Now()) is moved onto the occurrence, Next() is strictly after its argument, and that run is skipped while the stored last-scheduled time has passed it", bad)
+	c.Floor("C17.noforward", "time.Time method calls in NewSchedule", n, 3)
+}
